@@ -3,7 +3,8 @@ import sys, os, json, time
 sys.path.insert(0, os.path.dirname(os.path.dirname(os.path.abspath(__file__))))
 from concurrent.futures import ProcessPoolExecutor
 from nv import REPO_SRC
-from nv.selftest import VARIANTS, _eval
+from nv.selftest import VARIANTS as _V, _eval, seeded_variants
+VARIANTS = _V + seeded_variants()
 from nv.cli import run_property
 
 def base(prop):
